@@ -5,6 +5,10 @@ import PlumVerif.Proofs.EntryRank
 C10 — one device object per controller address, for every arrival timing.
 Property theorems only; the machine is Model/Entry.lean, the invariant Proofs/Entry.lean.
 
+Routes (`same_object_over_all_routes`, `sees_the_entry`): the routes `data` / `get_nowait` / attribute are identical BY
+DEFINITION of `Entry.sees` (one dict in the code; correspondence carries them); `subscribed` and `returned j` are the
+theorem content.  See the docstring of `same_object_over_all_routes`.
+
 All theorems about the locked machine (`step true`) hold for EVERY description `who` of the
 callers (frame consumer or user get(), for whichever address), EVERY number of callers and
 addresses, EVERY set `cr` of addresses that have a device class, and EVERY interleaving
@@ -200,7 +204,16 @@ theorem sees_the_entry (who : Nat → Caller) (cr : Nat → Bool) (sched : List 
 obtain the device: `protocol.data[name]`, `get_nowait`, attribute access, a subscribed callback, the return value of
 `get()` / `wait_for()` + read, and the object a frame consumer hands its frame to.  Whatever is seen for address `a`
 through route `ρ` at one moment and through route `σ` at the same or any later moment (`more` further steps of any
-schedule) is one and the same object: the entry of `a` at both moments. -/
+schedule) is one and the same object: the entry of `a` at both moments.
+
+What the theorem contributes per route (round-8 audit, item 12): `Entry.sees` DEFINES the three read routes `data`,
+`getNowait`, `attr` identically as `s.published a == some d` (in the code all three read the one dict `protocol.data`
+through `EventManager`: `data[name]`, `get_nowait` = `self.data[name]`, `__getattr__` = `self.data[name]`).  For these
+three the statement adds nothing to `entry_is_stable`; that the three accessors of the code read the same dict is
+carried by the CORRESPONDENCE (harness reads all three after every event) and by C13's `getNowait := s.data`.  The
+theorem CONTENT is in the other two routes: `subscribed` (every announcement `dispatch`ed for `a` announced the entry:
+`dispOk`) and `returned j` (every caller that has returned — consumer or `get()` — holds the entry: `holds`), and in
+relating each of them to the reads at the same and at every later moment. -/
 theorem same_object_over_all_routes (who : Nat → Caller) (cr : Nat → Bool) (sched more : List Nat) (a d e : Nat) (ρ σ : Route)
     (h1 : sees who (run true who cr init sched) a ρ d = true)
     (h2 : sees who (run true who cr init (sched ++ more)) a σ e = true) :
